@@ -41,3 +41,23 @@ pub fn oracle_ylen_holds(y: i32) {
     let ny = if y == -1 { 1 } else { y + 1 };
     assert!(spec_rd(ny, 1, 1) - spec_rd(y, 1, 1) == spec_ylen(y));
 }
+/// the triple-based weekday and day-of-year forms agree with the closed-form day count
+pub fn oracle_wd_ymd_holds(y: i32, m: u32, d: u32) {
+    assume(y >= -5_879_613 && y <= 5_879_613);
+    assume(spec_valid(y, m, d));
+    assert!(spec_iso_wd_ymd(y, m, d) == spec_iso_wd(spec_rd(y, m, d)));
+    assert!(spec_doy(y, m, d) == spec_rd(y, m, d) - spec_rd(y, 1, 1) + 1);
+    assert!(spec_doy(y, m, d) >= 1 && spec_doy(y, m, d) <= spec_ylen(y));
+}
+/// the floor-division helpers mean floor division (the executor encodes calls to them directly as (q, r) pairs;
+/// this obligation runs with that shortcut switched off and checks the Rust definitions)
+pub fn oracle_floor_helpers_holds(a: i64, b: i128) {
+    let q = floor_div(a, 7);
+    let r = floor_mod(a, 7);
+    assert!(q * 7 + r == a && r >= 0 && r < 7);
+    let q4 = floor_div(a, 400);
+    assert!(q4 * 400 <= a && a < q4 * 400 + 400);
+    let q2 = fdiv128(b, NPD);
+    let r2 = fmod128(b, NPD);
+    assert!(q2 * NPD + r2 == b && r2 >= 0 && r2 < NPD);
+}
